@@ -185,7 +185,7 @@ pub fn main(args: &[String]) {
     quiet_panics();
     let rows = read_ndjson(&args[0]);
     let res = par_map(&rows, threads(), |i, c| {
-        let fmt = i % 3;
+        let fmt = mix(i) % 3;
         let fname = ["yaml", "json", "toml"][fmt];
         check_case(c, fmt).into_iter().map(|m| json!({"case": i, "format": fname,
             "ops": c["ops"], "mismatch": m})).collect()
